@@ -13,8 +13,14 @@ pub open spec fn seq_extend<T>(s: Seq<T>, t: Seq<T>) -> Seq<T>
 }
 
 /// removes every occurrence of x, keeping the order of the rest (indexmap: shift_remove)
-pub open spec fn seq_remove<T>(s: Seq<T>, x: T) -> Seq<T> {
-    s.filter(|y: T| y != x)
+pub open spec fn seq_remove<T>(s: Seq<T>, x: T) -> Seq<T>
+    decreases s.len(),
+{
+    if s.len() == 0 { s }
+    else {
+        let r = seq_remove(s.drop_last(), x);
+        if s.last() == x { r } else { r.push(s.last()) }
+    }
 }
 
 pub struct IndexSet<T> { pub v: Vec<T> }
